@@ -291,6 +291,8 @@ class Ref:
             frame['error'] = ErrorView(exc)
             mode, e = node['onerror']
             v = self.ev(e, scope)
+            if node.get('i18n_translate') == '' and v is not None:
+                v = self.T(v, None, v)          # the fallback is the element's content: offered for translation
             omit = node.get('omit') == ''
             if not omit:
                 out.append('<' + node['tag'])
@@ -540,6 +542,13 @@ class Ref:
         i18n_attrs = parse_i18n_attributes(node.get('i18n_attributes'))
         implicit = self.options.get('implicit_i18n_attributes') or ()
         statics = {n: v for n, v in node.get('static', [])}
+        # a name listed in i18n:attributes that the element has neither statically nor through tal:attributes is
+        # appended (statement order) with its own name as text (what tal.prepare_attributes establishes)
+        present = [n.lower() for n, _ in node.get('static', [])] + [n.lower() for n, _ in entries]
+        for nm in i18n_attrs:
+            if nm.lower() not in present:
+                attrs.append([nm, nm, True])
+                present.append(nm.lower())
         for a in attrs:
             if a is None:
                 continue
